@@ -84,8 +84,61 @@ macro_rules! match_byte {
     )* }};
 }
 
+/// an encoder that records atoms and relies on every default method of the trait (in particular the default
+/// `encode_bigint`, which the Allocator overrides with the interpreter's own `new_number`)
+struct Rec;
+impl clvm_traits::ClvmEncoder for Rec {
+    type Node = Vec<u8>;
+    fn encode_atom(&mut self, bytes: clvmr::Atom<'_>) -> Result<Vec<u8>, clvm_traits::ToClvmError> { Ok(bytes.as_ref().to_vec()) }
+    fn encode_pair(&mut self, first: Vec<u8>, rest: Vec<u8>) -> Result<Vec<u8>, clvm_traits::ToClvmError> {
+        let mut o = vec![0xff]; o.extend(first); o.extend(rest); Ok(o)
+    }
+}
+
+fn bigint_cases(out: &mut Vec<(String, bool, String)>) {
+    let mut vals = boundary_values();
+    for bits in [129u32, 135, 136, 255, 256, 511] { let p = BigInt::from(1) << bits; for d in -1i32..=1 { vals.push(&p + d); vals.push(-&p + d); } }
+    for v in vals {
+        let want = canon(&v);
+        let rec = v.to_clvm(&mut Rec);
+        out.push((format!("BigInt/default-encoder/{v}"), rec.as_ref().map(|e| *e == want).unwrap_or(false),
+            format!("BigInt {v} through an encoder using the trait's default encode_bigint = {:?}; the canonical form is {}", rec.as_ref().map(hex::encode).map_err(|e| format!("{e:?}")), hex::encode(&want))));
+        let th = v.to_clvm(&mut clvm_utils::TreeHasher);
+        let want_hash = clvm_utils::tree_hash_atom(&want);
+        out.push((format!("BigInt/tree-hasher/{v}"), th.as_ref().map(|h| *h == want_hash).unwrap_or(false),
+            format!("BigInt {v} through TreeHasher = {:?}; the tree hash of its canonical atom {} is {}", th.as_ref().map(|h| hex::encode(h.to_bytes())).map_err(|e| format!("{e:?}")), hex::encode(&want), hex::encode(want_hash.to_bytes()))));
+        let mut a = Allocator::new();
+        let al = v.to_clvm(&mut a).map(|n| a.atom(n).as_ref().to_vec());
+        out.push((format!("BigInt/allocator/{v}"), al.as_ref().map(|e| *e == want).unwrap_or(false),
+            format!("BigInt {v} through the Allocator = {:?}; the canonical form is {}", al.as_ref().map(hex::encode).map_err(|e| format!("{e:?}")), hex::encode(&want))));
+        let mut a2 = Allocator::new();
+        let node = if want.is_empty() { a2.nil() } else { a2.new_atom(&want).unwrap() };
+        let dec = BigInt::from_clvm(&a2, node);
+        out.push((format!("BigInt/decode/{v}"), matches!(&dec, Ok(x) if *x == v),
+            format!("BigInt::from_clvm(atom {}) = {:?}; the atom denotes {v}", hex::encode(&want), dec.as_ref().map(|x| x.to_string()).map_err(|e| format!("{e:?}")))));
+    }
+    // the fixed widths through the recording encoder and the tree hasher (no Allocator in between)
+    macro_rules! w { ($t:ty, $name:expr) => {{
+        for v in boundary_values() {
+            if let Ok(x) = <$t>::try_from(v.clone()) {
+                let want = canon(&v);
+                let rec = x.to_clvm(&mut Rec);
+                out.push((format!("{}/recording-encoder/{}", $name, v), rec.as_ref().map(|e| *e == want).unwrap_or(false),
+                    format!("{} {} through a recording encoder = {:?}; the canonical form is {}", $name, v, rec.as_ref().map(hex::encode).map_err(|e| format!("{e:?}")), hex::encode(&want))));
+                let th = x.to_clvm(&mut clvm_utils::TreeHasher);
+                let want_hash = clvm_utils::tree_hash_atom(&want);
+                out.push((format!("{}/tree-hasher/{}", $name, v), th.as_ref().map(|h| *h == want_hash).unwrap_or(false),
+                    format!("{} {} through TreeHasher is not the tree hash of its canonical atom {}", $name, v, hex::encode(&want))));
+            }
+        }
+    }}; }
+    w!(u8, "u8"); w!(i8, "i8"); w!(u16, "u16"); w!(i16, "i16"); w!(u32, "u32"); w!(i32, "i32"); w!(u64, "u64"); w!(i64, "i64");
+    w!(u128, "u128"); w!(i128, "i128"); w!(usize, "usize"); w!(isize, "isize");
+}
+
 fn cases() -> Vec<(String, bool, String)> {
     let mut out: Vec<(String, bool, String)> = vec![];
+    bigint_cases(&mut out);
     width!(out, u8, "u8"); width!(out, i8, "i8"); width!(out, u16, "u16"); width!(out, i16, "i16");
     width!(out, u32, "u32"); width!(out, i32, "i32"); width!(out, u64, "u64"); width!(out, i64, "i64");
     width!(out, u128, "u128"); width!(out, i128, "i128"); width!(out, usize, "usize"); width!(out, isize, "isize");
